@@ -40,6 +40,7 @@ structure Mon where
   lastGiveMe : Option Nat := none
   startOk : Nat := 0
   lastNeeds : Option Nat := none
+  auditInFlight : Bool := false   -- an audit reset happened while an Enqueue was inside the library (finding F9)
 
 def Mon.add (m : Mon) (p r : String) : Mon :=
   if m.viols.contains (p, r) then m else { m with viols := m.viols ++ [(p, r)] }
@@ -142,7 +143,8 @@ def monitorHist (sc : HScn) (entries : List String) : List (String × String) :=
             m := m.add "C19" (if inflight then "audit-fail-in-healthy-run:enqueue-in-flight"
                               else if rejected then "audit-fail-in-healthy-run:after-rejected-enqueue"
                               else "audit-fail-in-healthy-run")
-          m := { m with auditFail := true }
+          let inflightNow := m.calls.any fun c => c.res.isNone
+          m := { m with auditFail := true, auditInFlight := m.auditInFlight || (healthy && !m.stale && inflightNow) }
       else if a2 == "flush-start" then
         match m.pauseAt with
         | some p => if t > p && t < p + sc.c.pause then m := m.add "C13" "cycle-during-pause"
@@ -176,7 +178,7 @@ def monitorHist (sc : HScn) (entries : List String) : List (String × String) :=
           if inprog > sc.c.mcb then m := m.add "C10" "more-batches-in-progress-than-limit"
           if infl != inprog then m := m.add "C10" "inflight-differs-from-batches-in-progress"
         -- C03 / C11: demand = cost of everything accepted (or blocked / parked inside Enqueue) whose batch has not finished
-        if !m.stale && !m.auditFail then
+        if !m.stale && (!m.auditFail || m.auditInFlight) then
           let outstanding := (m.calls.filter fun c =>
             let counted := c.res == some "ok" || (c.res.isNone)
             let fin := match c.delivered with
@@ -189,16 +191,23 @@ def monitorHist (sc : HScn) (entries : List String) : List (String × String) :=
             let rule :=
               if needs > outstanding && rejFull > 0 && needs ≤ outstanding + rejFull + rejShut then "rejected-enqueue-keeps-demand:BufferFull"
               else if needs > outstanding && rejShut > 0 && needs ≤ outstanding + rejFull + rejShut then "rejected-enqueue-keeps-demand:Shutdown"
+              else if needs < outstanding && m.auditInFlight then "demand-undercount:audit-with-enqueue-in-flight"
               else if needs < outstanding then "demand-undercount" else "demand-overcount"
             m := m.add "C03" rule
             if rule == "demand-undercount" || rule == "demand-overcount" then m := m.add "C11" ("write-off-time:" ++ rule)
       else
-        -- after shutdown nothing can be accepted any more, so the demand can only fall (batches finishing)
-        match m.lastNeeds with
-        | some prev =>
-          if needs > prev && !m.stale then
+        -- after shutdown nothing is accepted any more: what was refused must not be in the figure, so the demand is
+        -- at most the cost of what was accepted (buffered operations are discarded but stay counted), of calls
+        -- still inside Enqueue, and of unfinished batches
+        if !m.stale && !m.auditFail then
+          let bound := (m.calls.filter fun c =>
+            let counted := c.res == some "ok" || c.res.isNone
+            let fin := match c.delivered with
+              | some bi => (m.batches[bi]?.map fun b => batchFinished sc b t).getD false
+              | none => false
+            counted && !fin).foldl (fun acc c => acc + c.cost) 0
+          if needs > bound then
             m := m.add "C03" "rejected-enqueue-keeps-demand:Shutdown" |>.add "C16" "enqueue-after-shutdown-changes-demand"
-        | none => pure ()
       m := { m with lastNeeds := if m.shutdownAt.isSome then some needs else none }
   return m.viols
 
